@@ -391,6 +391,9 @@ ReplayExactAt(b) == (nr = 1) => LET R == RecAt(b) IN ((R.fs = Final /\ (R.err = 
 ReplayExactAlways == ReplayExactAt(jc.tb)
 \* the three passes end at the same transaction (no -EIO from "recovery pass ended at ...")
 PassesAgree == (nr = 1) => Rec.err \notin {"EIO", "HANG"}
+\* literal model with every deviation of the pinned code: the passes disagree, or the scan does not end, only through
+\* DevCommitBreakContinues (a transaction filling the whole ring whose commit block fails: repaired in the tree, fix 1acfd2c2)
+PassesAgreeOrDev == (nr = 1) => (Rec.err \notin {"EIO", "HANG"} \/ "CommitBreakContinues" \in Rec.devs)
 \* ReplayExact(OrDev) and PassesAgree of the state RecoverAt(b) leads to, evaluated in the state before: the blocks and the
 \* journal superblock the replay leaves are Final and JsbAfter (or a named deviation was taken), whatever the tid base b
 RecoverExactAt(b) == (nr = 1 /\ phase \in {"run", "dmg"}) =>
